@@ -226,7 +226,13 @@ func (h *handler) serve(clientCtx context.Context) error {
 			for {
 				select {
 				case args := <-h.unaryRpcChan:
-					h.writeChan <- h.processUnaryRpc(clientCtx, args.info, args.md, args.rpc)
+					resp := h.processUnaryRpc(clientCtx, args.info, args.md, args.rpc)
+					select {
+					case h.writeChan <- resp:
+					case <-unaryRpcCtx.Done():
+						// the writer is gone with the connection
+						return
+					}
 				case <-unaryRpcCtx.Done():
 					return
 				}
@@ -311,6 +317,10 @@ func (h *handler) processUnaryRpc(
 		log.Panic().Err(err).Msg("Server: failed to get context from headers")
 	}
 	defer cancel()
+	// The handler's context derives from the context given to Serve; the end
+	// of this connection (read or write failure, Stop) must cancel it too.
+	stopAfter := context.AfterFunc(h.ctx, cancel)
+	defer stopAfter()
 
 	var appErr error
 	fullMethod := fmt.Sprintf("/%s/%s", info.name, md.MethodName)
